@@ -297,6 +297,14 @@ func runCheck(pc *PropConfig, tier string, seed int, writeBaseline, verbose bool
 				covers++
 				if d.Res.Status == "sat" {
 					rec.Verdict = "cover-ok"
+					if strings.Contains(d.Ob.Name, "#cover:") {
+						newBaseline = append(newBaseline, d.Ob.Name)
+					}
+				} else if d.Res.Status == "unsat" && strings.Contains(d.Ob.Name, "#cover:") && inBaseline[d.Ob.Name] {
+					// a "cover e" clause of a contract: on the committed tree some exit satisfied e, now none
+					// does, so the conditional post-conditions guarded by e have become vacuous
+					rec.Verdict = "violation-no-input"
+					out.violations = append(out.violations, writeNoInput(pc, replayDir, d.Ob.Name, d.Ob.Func, "no exit of the function satisfies the covered condition any more (it did on the committed tree)", d.Res.Output))
 				} else if d.Res.Status == "unsat" {
 					rec.Verdict = "VACUOUS"
 					out.engineErr = append(out.engineErr, "vacuous pre-condition: "+d.Ob.Name)
